@@ -97,7 +97,7 @@ def run(tier, seed, focus=None):
     specs, notes = R.indicator_specs(thorough)
     rep.notes.extend(notes)
     only = rep.focus_group()
-    kinds = ["random", "gappy", "dup", "sawtooth", "patterns"] if thorough else ["random", "gappy", "patterns"]
+    kinds = ["random", "gappy", "dup", "sawtooth", "patterns"] if thorough else ["random", "gappy", "patterns", "dup"]
     n_out = 40 if thorough else 36
     skipped = 0
     for si, spec in enumerate(specs):
@@ -109,6 +109,8 @@ def run(tier, seed, focus=None):
             for ki, kind in enumerate(kinds):
                 if kind == "patterns" and (tf is not None) and (not thorough or not spec.key.startswith("Amorph/")):
                     continue
+                if not thorough and kind == "dup" and (tf is not None or spec.key.split("/")[0] not in ("EMA", "OBV", "MACD", "ATR", "VWAP")):
+                    continue  # quick tier: repeated timestamps on the base timeframe, a few indicator classes
                 if not thorough and (tf is not None) and (kind == "gappy") != fill:
                     continue
                 sseed = R.sub_seed(seed, spec.label, tf, fill, kind)
